@@ -29,8 +29,12 @@
 (***************************************************************************)
 EXTENDS Prune
 
-CONSTANTS SL,      \* secondLevelPruningHeight (500000)
-          TL       \* threeLevelPruningHeight (1500000)
+CONSTANTS SL,        \* secondLevelPruningHeight (500000)
+          TL,        \* threeLevelPruningHeight (1500000)
+          KeepRoots  \* TRUE: the code as repaired - a prune run never deletes a record keyed by the root
+                     \* hash of a state recorded at a height >= cur-PruneH or by the newest root recorded
+                     \* below (retainedRootHashes), nor an un-prefixed leaf that is the kept version's leaf,
+                     \* and the re-commit cleanup also finds the entry of a one-leaf tree; FALSE: as found
 
 VARIABLES db, idx, old, roots, rk, maxH, secH, crashed
 mvars == <<db, idx, old, roots, rk, maxH, secH, crashed>>
@@ -107,8 +111,10 @@ LeafKeysAt(d, h) == {key \in DOMAIN d : key[1] = h /\ key[2][1] = "L"}
 RootsAt(d, rts, h) == {<<0, r[2]>> : r \in {x \in rts : x[1] = h /\ <<0, x[2]>> \in DOMAIN d}}
 DelIdx(d, ix, rts, h) ==
   {e \in ix : /\ e.h = h
-              /\ \E rootk \in RootsAt(d, rts, h), lk \in LeafKeysAt(d, h) :
-                    lk[2][2] = e.k /\ WalkHash(d, rootk, e.k) = e.lk}
+              /\ \E rootk \in RootsAt(d, rts, h) :
+                    \/ \E lk \in LeafKeysAt(d, h) : lk[2][2] = e.k /\ WalkHash(d, rootk, e.k) = e.lk
+                    \* repaired: a one-leaf tree's leaf is the root (no height prefix, not found by the scan)
+                    \/ KeepRoots /\ rootk[2][1] = "L" /\ rootk[2][2] = e.k /\ e.lk = rootk}
 DelCrash(d, rts, h) == \E rootk \in RootsAt(d, rts, h), lk \in LeafKeysAt(d, h) :
                           WalkHash(d, rootk, lk[2][2]) = <<"missing">>
 
@@ -119,21 +125,39 @@ EntryNodes(S) == UNION {e.anc \cup {e.lk} : e \in S}
 TailOf(S) == IF Cardinality(S) < 2 THEN {}
              ELSE LET mh == MaxOf({e.h : e \in S}) IN
                   IF Cardinality({e \in S : e.h = mh}) >= 2 THEN {} ELSE {e \in S : e.h # mh}
-Level1(d, ix, ol, cur) ==
+\* retainedRootHashes(cur): root keys a run at cur must not delete
+KeepSet(rts, cur) ==
+  IF ~KeepRoots THEN {}
+  ELSE LET lowest == cur - PruneH
+           below == {r[1] : r \in {x \in rts : x[1] < lowest}}
+           hb == IF below = {} THEN -1 ELSE MaxOf(below)
+       IN {<<0, r[2]>> : r \in {x \in rts : x[1] >= lowest \/ x[1] = hb}}
+\* node records deleted with the tail T of one key's entries S; the repaired code keeps the root
+\* keys of KeepSet and a leaf key equal to the newest (kept) entry's leaf key
+TailNodes(S, T, keep) ==
+  IF T = {} THEN {}
+  ELSE LET top == CHOOSE e \in S : \A f \in S : f.h <= e.h
+           spare == IF KeepRoots THEN keep \cup {top.lk} ELSE {}
+       IN UNION {(e.anc \ keep) \cup ({e.lk} \ spare) : e \in T}
+Level1(d, ix, ol, rts, cur) ==
   LET mv == {e \in ix : cur >= e.h + SL}
       cand == {e \in ix : cur < e.h + SL /\ cur >= e.h + PruneH}
-      del == UNION {TailOf({e \in cand : e.k = k}) : k \in Keys}
-  IN [db |-> Restrict(d, DOMAIN d \ EntryNodes(del)), idx |-> (ix \ mv) \ del, old |-> ol \cup mv]
-Level2(d, ol, sh, cur) ==
+      S(k) == {e \in cand : e.k = k}
+      del == UNION {TailOf(S(k)) : k \in Keys}
+      dn == UNION {TailNodes(S(k), TailOf(S(k)), KeepSet(rts, cur)) : k \in Keys}
+  IN [db |-> Restrict(d, DOMAIN d \ dn), idx |-> (ix \ mv) \ del, old |-> ol \cup mv]
+Level2(d, ol, sh, rts, cur) ==
   IF ~(cur \div SL > 1 /\ cur \div SL # sh \div SL) THEN [db |-> d, old |-> ol, secH |-> sh]
   ELSE LET S(k) == {e \in ol : e.k = k}
-           delN == UNION {{e \in TailOf(S(k)) : cur >= e.h + PruneH} : k \in Keys}
+           T(k) == {e \in TailOf(S(k)) : cur >= e.h + PruneH}
+           delN == UNION {T(k) : k \in Keys}
+           dn == UNION {TailNodes(S(k), T(k), KeepSet(rts, cur)) : k \in Keys}
            delE == UNION {IF Cardinality(S(k)) = 1 \/ (Cardinality(S(k)) > 1 /\ TailOf(S(k)) = {})
                           THEN {e \in S(k) : cur >= e.h + TL} ELSE {} : k \in Keys}
-       IN [db |-> Restrict(d, DOMAIN d \ EntryNodes(delN)), old |-> (ol \ delN) \ delE, secH |-> cur]
-PruneRun(d, ix, ol, sh, cur) ==
-  LET a == Level1(d, ix, ol, cur)
-      b == Level2(a.db, a.old, sh, cur)
+       IN [db |-> Restrict(d, DOMAIN d \ dn), old |-> (ol \ delN) \ delE, secH |-> cur]
+PruneRun(d, ix, ol, sh, rts, cur) ==
+  LET a == Level1(d, ix, ol, rts, cur)
+      b == Level2(a.db, a.old, sh, rts, cur)
   IN [db |-> b.db, idx |-> a.idx, old |-> b.old, secH |-> b.secH]
 \* Tree.Save starts a run when the height is a multiple (>= 2x) of the interval
 Trigger(h) == PruneH # 0 /\ h % PruneH = 0 /\ h \div PruneH > 1
@@ -165,7 +189,8 @@ MCommit(c, h, w) ==
          ix1 == {e \in ix0 : ~\E n \in newidx : n.k = e.k /\ n.h = e.h /\ n.lk = e.lk} \cup newidx
          d1 == [key \in DOMAIN db \cup {s.key : s \in sv} |->
                   IF \E s \in sv : s.key = key THEN (CHOOSE s \in sv : s.key = key).rec ELSE db[key]]
-         pr == IF Trigger(h) THEN PruneRun(d1, ix1, old, secH, h)
+         rts1 == roots \cup {<<h, Content(nt)>>}
+         pr == IF Trigger(h) THEN PruneRun(d1, ix1, old, secH, rts1, h)
                ELSE [db |-> d1, idx |-> ix1, old |-> old, secH |-> secH]
      IN IF crash
         THEN /\ crashed' = TRUE /\ UNCHANGED <<db, idx, old, roots, rk, maxH, secH>>
@@ -184,7 +209,7 @@ MNoChange(c, h) ==
 
 MPrune(cur) ==
   /\ PruneR(cur)
-  /\ LET pr == PruneRun(db, idx, old, secH, cur) IN
+  /\ LET pr == PruneRun(db, idx, old, secH, roots, cur) IN
        db' = pr.db /\ idx' = pr.idx /\ old' = pr.old /\ secH' = pr.secH
   /\ UNCHANGED <<roots, rk, maxH, crashed>>
   /\ Emit(PruneLbl(cur) @@ [mchk |-> MChk'])
